@@ -37,11 +37,15 @@ def main():
     pid = args.prop
     mod = importlib.import_module('props.' + pid)
     t0 = time.time()
+    bkw = dict(extract_targets=tuple(getattr(mod, 'EXTRACT_TARGETS', ('Extract/Extract.vo',))),
+               runners=tuple(getattr(mod, 'RUNNERS', (getattr(mod, 'RUNNER', common.DEFAULT_RUNNER),))),
+               need_model=getattr(mod, 'NEED_MODEL', True))
 
     if args.replay:
         case = json.load(open(args.replay))
-        br = common.build(pid, mod.GEN_SECTIONS, mod.COQ_TARGETS) if not args.no_build else None
+        br = common.build(pid, mod.GEN_SECTIONS, mod.COQ_TARGETS, **bkw) if not args.no_build else None
         ctx = Ctx(pid, 'quick', seed)
+        ctx.runner = getattr(mod, 'RUNNER', common.DEFAULT_RUNNER)
         ctx.model_available = bool(br and br.model_ok)
         if 'case' in case and case.get('kind') == 'oracle':
             res = mod.replay(ctx, case['case'])
@@ -59,8 +63,17 @@ def main():
             sys.exit(0 if ok else 1)
 
     # 1+2: translate, prove, build the model runner
-    br = common.build(pid, mod.GEN_SECTIONS, mod.COQ_TARGETS)
-    ctx = Ctx(pid, tier, seed, budget_s=getattr(mod, 'BUDGET', {}).get(tier))
+    br = common.build(pid, mod.GEN_SECTIONS, mod.COQ_TARGETS, **bkw)
+    run_tier = tier
+    budget_s = getattr(mod, 'BUDGET', {}).get(tier)
+    if br.source_changed and tier == 'quick':
+        # the source of a region the hand-written model transcribes was edited: the tie between model and
+        # code is the correspondence, so it is re-established at thorough size (time-boxed) before trusting it
+        run_tier = 'thorough'
+        budget_s = getattr(mod, 'ESCALATE_BUDGET', 420)
+    ctx = Ctx(pid, run_tier, seed, budget_s=budget_s)
+    ctx.escalated = bool(br.source_changed)
+    ctx.runner = getattr(mod, 'RUNNER', common.DEFAULT_RUNNER)
     ctx.model_available = br.model_ok
     # 3+4: correspondence + oracle
     run_error = None
@@ -112,6 +125,7 @@ def main():
         # search for a concrete failing input: thorough-size generator, oracle only
         sctx = Ctx(pid, 'thorough', seed + 1, budget_s=getattr(mod, 'SEARCH_BUDGET', 240))
         sctx.model_available = False
+        sctx.runner = ctx.runner
         try:
             # mismatching cases first
             for m in ctx.mismatches[:50]:
@@ -167,6 +181,8 @@ def main():
             'search_evaluations': searched,
             'proof_ok': br.proof_ok, 'model_ok': br.model_ok,
             'translate_errors': br.translate_errors,
+            'source_changed_since_transcription': br.source_changed,
+            'escalated_to_thorough_correspondence': ctx.escalated,
             'build_wall_s': round(br.wall, 2),
             'known_findings_reproduced': [s for s, _ in known_lines],
             'notes': ctx.notes,
